@@ -187,10 +187,15 @@ def tr_ipc_conv(repo: Path) -> str:
 
     def val(node):
         seen = set()
-        while isinstance(node, ast.Name) and node.id in bound and node.id not in seen:
-            seen.add(node.id)
-            node = bound[node.id]
-        return node
+        while True:
+            if isinstance(node, ast.Name) and node.id in bound and node.id not in seen:
+                seen.add(node.id)
+                node = bound[node.id]
+            elif (isinstance(node, ast.Call) and ast.unparse(node.func) in ("float", "np.float64") and len(node.args) == 1
+                  and not node.keywords):
+                node = node.args[0]                      # float(np.mean(...)): the same number
+            else:
+                return node
 
     if not body or not isinstance(body[-1], ast.Return) or body[-1].value is None:
         fail(fn, "compute_ipc_convolution must end in `return <convolved frame>`")
